@@ -66,6 +66,27 @@ func c08Rules(p *Prog) *RuleSet {
 							return []Atom{Atom("v:start:" + canon(pr[0]))}
 						}
 					}
+					// compared with the result of an in-module table function that
+					// only ever returns start constants (or 0, which is no message type)
+					if ex, ok := pr[1].(*ssa.Extract); ok && pr[0].Type().Underlying().String() == "uint8" {
+						if call, ok := ex.Tuple.(*ssa.Call); ok {
+							if g := m.P.body(call.Call.StaticCallee()); g != nil {
+								all, n := true, 0
+								for _, b := range g.Blocks {
+									if ret, ok := b.Instrs[len(b.Instrs)-1].(*ssa.Return); ok && ex.Index < len(ret.Results) {
+										c, isC := constInt(ret.Results[ex.Index])
+										if !isC || !(starts[c] || c == 0) {
+											all = false
+										}
+										n++
+									}
+								}
+								if _, isConst := pr[0].(*ssa.Const); all && n > 0 && !isConst {
+									return []Atom{Atom("v:start:" + canon(pr[0]))}
+								}
+							}
+						}
+					}
 				}
 				return nil
 			}},
